@@ -58,7 +58,7 @@ REQUIRED = ["histories", "operations", "open_log_checks", "index_ops", "negative
             "populations_without_intersection", "extension_given_explicitly",
             "transform_checked", "tap_load", "symbolic_link_entries", "constructed_from_name_list",
             "eager_constructions", "eswc_populations", "eswc_populations_matched",
-            "transform_outputs_without_source",
+            "transform_outputs_without_source", "map_inside_map_checked",
             "audit_file_opens"]
 FLOOR = {"quick": 250, "thorough": 20000}
 SHARDS = {"quick": 8, "thorough": 16}
@@ -587,6 +587,19 @@ def _count_nodes_slow_first(t):
     return (t.number_of_nodes(), float(t.x()[0]))
 
 
+def _map_inside_map(t):
+    """A mapped function that itself maps over another (small) population, as analysis code that
+    compares every cell with a reference set does."""
+    import warnings as _w
+
+    from swcgeom.core import Population as _P
+
+    with _w.catch_warnings():
+        _w.simplefilter("ignore")
+        inner = list(_P.from_swc(os.environ["RV_INNER_ROOT"]).map(_count_nodes, max_worker=1))
+    return (t.number_of_nodes(), float(t.x()[0]), tuple(tuple(r) for r in inner))
+
+
 def check_map(ctx, case, tmp):
     from swcgeom.core import Population
 
@@ -599,6 +612,23 @@ def check_map(ctx, case, tmp):
         listing = [os.path.relpath(p, root) for p in Population.find_swcs(root)]
         want = [files[r] for r in listing]
         verbose = bool(case.get("verbose"))
+        if case.get("nested"):
+            inner_root = os.path.join(tmp, "reference")
+            inner_files = make_layout(rng, inner_root, nfiles=2, marker_base=700)
+            inner_list = [os.path.relpath(p, inner_root) for p in Population.find_swcs(inner_root)]
+            inner_want = tuple(tuple(inner_files[r]) for r in inner_list)
+            os.environ["RV_INNER_ROOT"] = inner_root
+            try:
+                res = list(pop.map(_map_inside_map, max_worker=2))
+            finally:
+                os.environ.pop("RV_INNER_ROOT", None)
+            ctx.count("map_inside_map_checked")
+            exp = [(w[0], w[1], inner_want) for w in want]
+            if [tuple(r) for r in res] != exp:
+                return ctx.violation("map-wrong", f"map of a function that itself maps over another "
+                                                  f"population returned {res[:3]}..., one result per "
+                                                  f"tree in order is {exp[:3]}...", case)
+            return
         os.environ["RV_SLOW_MARKER"] = repr(float(want[0][1]))
         audit.start(tmp)
         try:
@@ -787,6 +817,10 @@ def run(ctx):
         for j in range(2 if ctx.quick else 6):
             case = {"kind": "map", "seed": int(rng.integers(0, 2**31 - 1)), "verbose": bool(j % 2)}
             ctx.case(case, klass="map")
+            execute(ctx, case)
+        if ctx.shard % 4 == 0:
+            case = {"kind": "map", "seed": int(rng.integers(0, 2**31 - 1)), "nested": True}
+            ctx.case(case, klass="map-nested")
             execute(ctx, case)
         for _ in range(1 if ctx.quick else 4):
             case = {"kind": "history", "seed": int(rng.integers(0, 2**31 - 1)), "nops": 6,
